@@ -515,6 +515,9 @@ rows[0]
 rows
 [r for r in rows if r.when == "2025-01-02"]
 next((r for r in orders), rows[0])
+sum([[x for x in rows] for r in orders], rows)
+len(sum([[x for x in orders] for r in rows], orders))
+sum([[x.qty for x in rows] for r in rows], lst)
 100 * 1.08 > amount
 -5 < amount
 amount > 2 ** 3 or amount > 7 // 2
